@@ -14,16 +14,17 @@ theorem IncInv.of_same {a g n : Nat} {s s' : State} (h1 : s'.id = s.id) (h2 : s'
     IncInv a g n s' := by
   unfold IncInv at *; rw [h1, h2]; exact h
 
-theorem IncInv.base (E : Env) (a g n : Nat) : Base E (IncInv a g n) :=
+theorem IncInv.base (E : Env) (a g n : Nat) : Base E (IncInv a g n) (fun _ => True) :=
   Base.of_frame
     (by intro s s' h hs; exact IncInv.of_same (by rw [h]) (by rw [h]) hs)
     (by intro s s' h hs; exact IncInv.of_same (by rw [h]) (by rw [h]) hs)
+    (fun m => Pres.modS_of (fun s hs => IncInv.of_same rfl rfl hs))
     (fun f h => Pres.modS_of (fun s hs => IncInv.of_same (h s).2.2.2.2.2.1 (h s).2.2.2.2.2.2.1 hs))
     (fun f h => Pres.modS_of (fun s hs => IncInv.of_same (h s).2.2.2.2.1 (h s).2.2.2.2.2.1 hs))
 
-theorem renew_spec {p : Policy} {i j : Id} (h : renew p i = some j) (hw : j.wins i = true) :
+theorem renew_spec {p : Policy} {i j : Id} (h : renew p i = some j) (hne : i ≠ j) (hw : renewWins p j i = true) :
     j.addr = i.addr ∧ j.gen > i.gen := by
-  cases p <;> simp [renew] at h <;> subst h <;> simp [Id.wins] at hw ⊢
+  cases p <;> simp [renew] at h <;> subst h <;> simp [Id.wins, renewWins] at hw hne ⊢
   all_goals omega
 
 section
@@ -79,8 +80,8 @@ theorem IncInv.attemptRejoin : Pres (IncInv a g n) (Foca.attemptRejoin E) := by
       apply PresAt.dite
       · intro _; exact PresAt.of_pres (Pres.pure _)
       · intro hw
-        have hw' : newId.wins s.id = true := by simpa using hw
-        obtain ⟨ha, hgt⟩ := renew_spec hren hw'
+        have hw' : renewWins s.policy newId s.id = true := by simpa using hw
+        obtain ⟨ha, hgt⟩ := renew_spec hren (by simpa using ‹¬(s.id == newId) = true›) hw'
         exact PresAt.bind (IncInv.changeIdentity_at E a g n s newId s.policy ha hgt)
           (fun _ => Pres.bind (Pres.emit _) (fun _ => Pres.pure _))
 
@@ -124,9 +125,12 @@ theorem IncInv.handleSelfUpdate (inc : Nat) (st : St) : Pres (IncInv a g n) (Foc
           · exact Or.inr ⟨h3.1, by simp only; omega⟩
         · exact PresAt.of_pres B.gossip
 
-theorem IncInv.full : Full E (IncInv a g n) where
+theorem IncInv.full : Full E (IncInv a g n) (fun _ => True) where
   toBase := IncInv.base E a g n
   handleSelfUpdate := IncInv.handleSelfUpdate E a g n
+  senderOk := fun _ _ _ _ => trivial
+  applyOk := fun _ _ _ _ _ => trivial
+  failedOk := fun _ _ _ _ => trivial
 
 end
 end Foca
